@@ -85,7 +85,7 @@ func c06RunHistory(c *vx.Ctx, p *vx.Part, prefix []*types.WorkObject, word []int
 			p.Outcome("word-n/a")
 			return nil, ""
 		}
-		blk, err := s.n.Build(core.VBuildOpts{Order: 2, Fill: true})
+		blk, err := s.n.Build(s.opts(core.VBuildOpts{Order: 2, Fill: true}))
 		if err != nil {
 			return nil, "build: " + err.Error()
 		}
